@@ -9,7 +9,7 @@ CONSTANTS
   Stim = {}
   StimAnywhere = FALSE
   Focus = "all"
-  AllowMute = FALSE
+  Mute = "never"
   CheckAfterAcquire = FALSE
   Mut = "none"
   Emit = "none"
